@@ -449,6 +449,14 @@ def starKeeps (wt : Token) (ref : ColRef) : Bool :=
 
 def refField (ref : ColRef) : Field := { expr := .varRef ref.name ref.type }
 
+/-- The fields a call `e` (field name `fname`) with a wildcard or regex as first argument of its
+innermost call `iname` expands to: one per column that is not a tag, has a type the function
+supports and passes `keep` (the regex), the column substituted for the wildcard, aliased
+`<field name>_<column>`. -/
+def callFields (refs : List ColRef) (fname : Str) (e : Expr) (iname : Str) (keep : ColRef → Bool) : List Field :=
+  (refs.filter (fun r => r.type ≠ .Tag && (callSupportedTypes iname).contains r.type.toNat && keep r)).map
+    (fun r => { expr := substInner (.varRef r.name r.type) e, alias := fname ++ ['_'] ++ r.name })
+
 /-- The body of `for _, f := range other.Fields` in `RewriteFields`: the fields that replace `f`. -/
 def expandField (re : Str → Str → Bool) (refs : List ColRef) (f : Field) : Except Str (List Field) :=
   match f.expr with
@@ -459,11 +467,8 @@ def expandField (re : Str → Str → Bool) (refs : List ColRef) (f : Field) : E
     | none => .ok [f]
     | some (_, none) => .ok [f]
     | some (iname, some arg) =>
-      let go (filter : ColRef → Bool) : Except Str (List Field) :=
-        let supported := callSupportedTypes iname
-        .ok ((refs.filter (fun r => r.type ≠ .Tag && supported.contains r.type.toNat && filter r)).map
-          (fun r => { expr := substInner (.varRef r.name r.type) (.call cname cargs),
-                      alias := f.name ++ ['_'] ++ r.name }))
+      let go (keep : ColRef → Bool) : Except Str (List Field) :=
+        .ok (callFields refs f.name (.call cname cargs) iname keep)
       match arg with
       | .wildcard wt =>
         if wt = .TAG then .error (errTagWildcard ++ iname ++ ['(', ')'])
